@@ -241,6 +241,15 @@ class Session:
             shutil.rmtree(self.path)
         rows = st['ref']
         arr = self.cfg.initial(rows)
+        # the creation input comes in several memory layouts too (same values)
+        if self.cfg.form == 'forder' and arr.ndim >= 2:
+            arr = np.asfortranarray(arr)
+        elif self.cfg.form == 'wider' and len(arr):
+            big = np.zeros((2 * arr.shape[0],) + arr.shape[1:], dtype=arr.dtype)
+            big[::2] = arr
+            arr = big[::2]
+        elif self.cfg.form == 'tuple' and arr.ndim >= 2:
+            arr = np.ascontiguousarray(arr.T).T
         md = self.mdict(_asmap(st['refmeta']))
         self.a = self.darr.asarray(self.path, arr, accessmode=st['mode'], metadata=md or None)
         self.ret = None
@@ -282,7 +291,10 @@ class Session:
         if kind == 'rank':
             if t == ():
                 return np.ones((1, 1, 1), dtype=self.cfg.numtype)
-            return np.ones((2,) + t + (1,), dtype=self.cfg.numtype)
+            # for an N-D array a bare number (no __len__) or a 0-d array has the wrong rank, too
+            self.n += 1
+            return [np.ones((2,) + t + (1,), dtype=self.cfg.numtype), 7, np.float64(7), np.array(7),
+                    np.ones((t[0],), dtype=self.cfg.numtype)][self.n % 5]
         if kind == 'conv':
             return [['not a number'] * 1] if t == () else 'abc'
         raise ValueError(kind)
